@@ -95,10 +95,12 @@ pub fn expected_ctor(h: &Header) -> Option<Result<(), String>> {
         Kind::Arc => Some(if h.sizes[0] == 0 { Err("size 0".into()) } else { Ok(()) }),
         Kind::Wtlfu => {
             if h.random_state && h.ctor != 0 {
-                // WTinyLFUCache::new(size, samples): segment sizes are derived from size
-                if h.sizes[..3].iter().any(|s| *s == 0) {
-                    return Some(Err("a derived segment size is 0".into()));
+                // WTinyLFUCache::new(size, samples): segment sizes are derived from size by
+                // ratios the statements do not fix; only "never panics" and samples > 0 apply
+                if h.samples == 0 {
+                    return Some(Err("samples 0".into()));
                 }
+                return None;
             }
             if h.sizes[..3].iter().any(|s| *s == 0) {
                 return Some(Err("a segment size is 0".into()));
